@@ -1,3 +1,5 @@
+import Secp.Proofs.DriversMisc
+import Secp.Proofs.DriversFront
 import Secp.Proofs.Ecdsa
 import Secp.Props.C03
 import Secp.Proofs.Slices
@@ -60,5 +62,20 @@ theorem recover_field_arithmetic_exact :
 theorem parseCompact_regenerated (b : Bytes) :
     Secp.Gen.BytesProg.parseCompact b = Secp.Proofs.BytesProgSig.ofExcept (parseCompactM b) :=
   Secp.Proofs.BytesProgSig.parseCompact_gen_eq_model b
+
+/-! ### Regenerated drivers (tools/gotr pass T8)
+
+`Secp.Gen.Drivers` is REGENERATED from /repo on every check run: the Go functions below translated
+statement by statement into Lean terms over the value-level primitives.  The theorems say the
+regenerated definitions EQUAL the hand-written models the theorems above are about. -/
+
+/-- `Signature.Export` regenerated = `exportM` (r below 2^256, which every scalar is; no bound on s is needed) -/
+theorem export_regenerated (r s v : Nat) (hr : r < 2 ^ 256) : Secp.Gen.Drivers.exportGen (r, s, v) = exportM r s v :=
+  Secp.Proofs.DriversFront.export_regenerated r s v hr
+
+/-- `Signature.ExportCompact` regenerated = `exportCompactM` for every code and offset -/
+theorem exportCompact_regenerated (r s v off : Nat) (first : Bool) :
+    Secp.Gen.Drivers.exportCompact (r, s, v) first off = exportCompactM r s v first off :=
+  Secp.Proofs.DriversMisc.exportCompact_regenerated r s v off first
 
 end Secp.Props.C07
